@@ -30,7 +30,8 @@ def main(tier, replay=None):
     exh_cfg = "Table_quick.cfg" if quick else "Table_thorough.cfg"
 
     with concurrent.futures.ThreadPoolExecutor(max_workers=4) as ex:
-        f_lib = ex.submit(lambda: vlib.build_harness(vlib.build_lib(wd), ["h_map.c"], os.path.join(wd, "h_map")))
+        f_lib = ex.submit(lambda: vlib.build_harness_wb(vlib.build_lib(wd), ["h_map.c"], os.path.join(wd, "h_map"),
+                                                        ("Tree.c",), chk.notes))
         f_exh = ex.submit(vlib.tlc, "TableImpl", exh_cfg, wd, 8 if quick else 12, "6g" if quick else "16g",
                           ("-coverage", "1"))
         f_edge = ex.submit(vlib.tlc, "TableImpl", edge_cfg, wd, 4, "4g")
